@@ -1,8 +1,8 @@
 (* PriorityQueue (ds/priorityqueue + generalheap + container/heap; timed.PriorityQueue is the same code with the
    ascending / descending time comparator): step-level theorems over all histories.
    Proved here for EVERY comparator: index maintenance, exact contents, removal handles (exactly-once, idempotent),
-   Peek = what Pop returns = the root.  The ordering part ("the root is a minimum") is HeapOrder-level work that
-   is NOT proved in this delivery (see pop_min_full_statement below); it is covered by the correspondence check. *)
+   Peek = what Pop returns = the root.  The ordering part ("the root is a minimum", stated below as
+   pop_min_full_statement) is proved in HeapOrder.v (pop_min_full) for every strict-weak-order comparator. *)
 From Coq Require Import List ZArith Bool Arith Lia Permutation.
 From Verif.C12a_Containers Require Import ListAux Heap HeapIndex.
 Import ListNotations.
@@ -119,7 +119,7 @@ Theorem pop_loop_contents : forall (s : hst) lim, idx_ok s ->
   Permutation (arr s) (snd r ++ arr (fst r)).
 Proof. intros. destruct (pop_loop_ok (S (length (arr s))) lim s [] H) as (_ & A & _). exact A. Qed.
 
-(* ---- ordering: full statement (not proved here; judged by the Go-side oracle and the lockstep check) ---- *)
+(* ---- ordering: full statement (proved in HeapOrder.v: pop_min_full) ---- *)
 Definition plt (a b : P) : bool := (cmp a b <? 0)%Z.
 Definition strict_weak_order : Prop :=
   (forall a b, plt a b = true -> plt b a = false) /\
